@@ -442,4 +442,31 @@ ReplaceAt2(a, g, w) == SubSeq(a, 1, g - 1) \o w \o SubSeq(a, g + 1, Len(a))
 WsCands(kind) ==
   UNION {UNION {{InsertAt2(a, g, w) : g \in 0..Len(a)} \cup {ReplaceAt2(a, g, w) : g \in {i \in 1..Len(a) : SubSeq(a, i, i) = " "}}
                 : w \in OddWs} : a \in {b \in WsBases(kind) : \A i \in 1..Len(b) : SubSeq(b, i, i) # "~"}}
+
+(* ---- the argument grammar enumerated: ALL strings over a kind's atom / separator alphabet up to a bound ----
+   Hand-picked candidates miss positions.  For every structured kind the atoms and separators of its ABNF rule are
+   an alphabet; every string over it up to length n is a candidate, so that an empty / doubled / tripled / leading /
+   trailing separator is covered at every position.  The renderer always quotes arguments, so "//a" reaches the
+   argument parser.  Verdicts are the ABNF predicates', as for every other candidate.                              *)
+RECURSIVE WordsUpTo(_, _)
+WordsUpTo(A, n) == IF n = 0 THEN {""} ELSE LET w == WordsUpTo(A, n - 1) IN w \cup {x \o a : x \in w, a \in A}
+GramAlphabet(kind) ==
+  CASE kind \in {"absnode", "descnode"} -> {"/", "a", ":"}
+    [] kind \in {"range", "length"} -> {"1", ".", "|", " "}
+    [] kind = "key" -> {" ", "k", "j", ":"}
+    [] kind = "unique" -> {" ", "/", "k", "j"}
+    [] kind = "date" -> {"2020", "01", "-", "1"}
+    [] kind = "idref" -> {"a", ":", "p"}
+    [] kind = "identifier" -> {"a", "-", ".", "_", "1", ":"}
+    [] kind \in {"integer", "nonneg", "maxel", "fracdigits"} -> {"0", "1", "8", "-", "+"}
+    [] OTHER -> {}
+GramBound(kind, full) ==
+  CASE kind \in {"absnode", "descnode"} -> IF full THEN 7 ELSE 6
+    [] kind \in {"range", "length"} -> IF full THEN 6 ELSE 5
+    [] kind \in {"key", "unique"} -> IF full THEN 5 ELSE 4
+    [] kind = "date" -> IF full THEN 6 ELSE 5
+    [] kind = "idref" -> IF full THEN 6 ELSE 5
+    [] kind = "identifier" -> IF full THEN 4 ELSE 3
+    [] OTHER -> 3
+GramCands(kind, full) == IF GramAlphabet(kind) = {} THEN {} ELSE WordsUpTo(GramAlphabet(kind), GramBound(kind, full))
 =============================================================================
